@@ -650,6 +650,32 @@ theorem seqforge_delayed_bp_channel_whole (s : Sequence) (fl t : Bool) (out : Li
   refine ⟨c, sq, f, f', h5, hf, hsw, hle, hfr, hbk, hbl, hc, w1, ho, fun n hn => ?_⟩
   rw [hlen n hn, hN]
 
+/-- **... whole-sample delays, inside a subsequence**: the same for content entry `j` of a
+    subsequence position - all arrays of the channel have `N + M` samples, `M = max(ds)·SR` the
+    largest delay among the channels of *that* inner element. -/
+theorem seqforge_delayed_subsequence_bp_channel_whole (s : Sequence) (fl t : Bool) (out : List (ℕ × ForgedPos))
+    (h : s.forge true fl t = .ok out) (i : ℕ) (hi : i < out.length) (sub : SubSeq)
+    (he : Dict.get? s.data ((i + 1 : ℕ) : ℤ) = some (.sub sub)) (j : ℕ) (hj : j < (out[i]).2.content.length)
+    (e : Element) (hge : Dict.get? sub.data ((j + 1 : ℕ) : ℤ) = some e)
+    (k : ℕ) (hk : k < e.chans.length) (b : BP) (hb : (e.chans[k]).2.data = .bp b)
+    (ds : List ℚ) (hds : e.channels.mapM s.delayOf = .ok ds) (sr : ℚ) (hsr : e.getSR = .ok (.num sr)) (hsr0 : 0 < sr)
+    (hkd : k < ds.length) (D M : ℕ) (hD : ds[k] * sr = D) (hM : maxR ds * sr = M) :
+    ∃ c q2 f f', (out[i]).2.content[j] = (j + 1, c, some q2) ∧
+      forgeBP b = .ok f ∧ SegmentwiseForged b f ∧ D ≤ M ∧ (D = 0 ∨ 2 ≤ D) ∧ (M - D = 0 ∨ 2 ≤ M - D) ∧
+      f'.blocks.map Blk.len = (if 0 < D then [D] else []) ++ f.blocks.map Blk.len ++ (if 0 < M - D then [M - D] else []) ∧
+      ∃ (hc : k < c.length), (c[k]).1 = (e.chans[k]).1 ∧
+        (c[k]).2.out = Element.ChOut.forged f' (e.chans[k]).2.flags t ∧
+        ∀ n ∈ C06.outLens (c[k]).2.out, n = f.N + M := by
+  obtain ⟨ds', sr', hds', hsr', _, hkd', c, q2, f, f', _, _, _, h5, hf, hsw, hdf, hc, w1, ho, hlen⟩ :=
+    seqforge_delayed_subsequence_bp_channel s fl t out h i hi sub he j hj e hge k hk b hb
+  have e1 : ds' = ds := by rw [hds] at hds'; cases hds'; rfl
+  have e2 : sr' = sr := by rw [hsr] at hsr'; cases hsr'; rfl
+  subst e1 e2
+  have hle := C10.whole_delay_le ds' sr' hsr0 k hkd D M hD hM
+  obtain ⟨hN, _, _, _, hbl, hfr, hbk⟩ := G13.delayedForged_whole b sr' ds'[k] (maxR ds') f f' hdf D M hsr0 hD hM hle
+  refine ⟨c, q2, f, f', h5, hf, hsw, hle, hfr, hbk, hbl, hc, w1, ho, fun n hn => ?_⟩
+  rw [hlen n hn, hN]
+
 /-- `maxR` of a list of zeros is zero -/
 theorem maxR_zeros (ds : List ℚ) (h : ∀ d ∈ ds, d = 0) : maxR ds = 0 := by
   cases ds with
@@ -760,6 +786,12 @@ example : (wholeSeq.forge false false true).toOption.isSome = true ∧
     ((1 : ℚ) / 5) * 10 = (2 : ℕ) ∧ maxR [1/5] * 10 = (2 : ℕ) := by
   refine ⟨by decide +kernel, by decide +kernel, rfl, by decide +kernel, by decide +kernel,
     by decide +kernel, by norm_num, by norm_num [maxR]⟩
+
+/-- ... and for the subsequence theorems: position 2 holds a subsequence whose position 1 holds the
+    example element -/
+example : ∃ sub : SubSeq, Dict.get? wholeSeq.data ((1 + 1 : ℕ) : ℤ) = some (.sub sub) ∧
+    Dict.get? sub.data ((0 + 1 : ℕ) : ℤ) = some exampleEl :=
+  ⟨_, rfl, by decide +kernel⟩
 
 /-- what comes out: block lengths and the four lengths (waveform, m1, m2, time axis) of channel 1 at
     the element position and inside the subsequence - `24 + 26 + 15 = 65` with delays off, and
